@@ -15,7 +15,18 @@ impl ErrorStore { pub fn push(&mut self, e: LoweringError) ensures final(self).e
 #[verifier::external_body] pub fn __msg() -> String { unimplemented!() }
 pub enum Param<'a> { Input(&'a str), Return }
 #[verifier::external_body] pub struct TypeContext { x: u8 }
-pub struct Method { pub lifetime_env: LifetimeEnv }
+// hir::Method / ParamSelf / Param / SelfType with the fields the validation driver reads
+pub enum SelfType { Opaque(OpaquePath), Struct(StructPath), Enum(u8) }
+impl Clone for SelfType { #[verifier::external_body] fn clone(&self) -> (r: Self) ensures r == *self { unimplemented!() } }
+pub open spec fn self_as_type(s: SelfType) -> Type {
+    match s { SelfType::Opaque(o) => Type::Opaque(o), SelfType::Struct(p) => Type::Struct(p), SelfType::Enum(e) => Type::Other(e) }
+}
+// hir: `impl From<SelfType> for Type` (Opaque(o) => Type::Opaque(o.wrap_optional()), Struct(s) => Type::Struct(s), Enum(e) => Type::Enum(e))
+impl From<SelfType> for Type { #[verifier::external_body] fn from(s: SelfType) -> (r: Type) ensures r == self_as_type(s) { unimplemented!() } }
+pub struct ParamSelf { pub ty: SelfType }
+pub struct HirParam { pub name: IdentBuf, pub ty: Type }
+impl IdentBuf { #[verifier::external_body] pub fn as_str(&self) -> &str { unimplemented!() } }
+pub struct Method { pub lifetime_env: LifetimeEnv, pub param_self: Option<ParamSelf>, pub params: Vec<HirParam> }
 pub struct LinkedLifetimes<'tcx> { pub env: &'tcx LifetimeEnv, pub all: Ghost<Seq<(MaybeStatic<Lifetime>, Option<Lifetime>)>>, pub uses: Ghost<Seq<MaybeStatic<Lifetime>>> }
 impl<'tcx> LinkedLifetimes<'tcx> {
     #[verifier::external_body] pub fn lifetimes_all(&self) -> (r: Vec<(MaybeStatic<Lifetime>, Option<Lifetime>)>) ensures r@ == self.all@ { unimplemented!() }
@@ -100,4 +111,12 @@ pub proof fn lemma_any_viol_next_outer(linked: LL, menv: &LifetimeEnv, oi: int, 
         let (a, b) = choose|a: int, b: int| #![trigger viol(linked, menv, a, b)] viol(linked, menv, a, b) && (a < oi || (a == oi && b < n));
         assert(viol(linked, menv, a, b) && (a < oi + 1 || (a == oi + 1 && b < 0)));
     }
+}
+// validate_ty_in_method(ty) reports an error  <=>  ty_viol(ty)
+pub open spec fn ty_viol(tcx: &TypeContext, t: &Type, method: &Method) -> bool {
+    link_of_ty(t, tcx) matches Some(l) && any_viol(l, &method.lifetime_env, l.all@.len() as int, 0)
+}
+pub open spec fn ty_wf(tcx: &TypeContext, t: &Type) -> bool { link_of_ty(t, tcx) matches Some(l) ==> linked_wf(l) }
+pub open spec fn params_viol_upto(tcx: &TypeContext, method: &Method, n: int) -> bool {
+    exists|i: int| #![trigger method.params@[i]] 0 <= i < n && i < method.params@.len() && ty_viol(tcx, &method.params@[i].ty, method)
 }
